@@ -2,7 +2,7 @@
 META = {
     "level": "exploration",
     "technique": "runtime monitoring at the wire of real mutable publishes on an in-process grid under generated server fault plans and stale-servermap scenarios; acknowledgement-counting oracle plus read-back from the acknowledging servers",
-    "text": "Runs the real Publish (initial creation, overwrite, modify, upload with a servermap, version overwrite, in-place MDMF update; SDMF and MDMF; k<=N<=10; 1..12 servers; three transport profiles) while servers fail, disconnect, never answer, answer late, answer with an error after having written, are dead or are read-only/full, on chosen calls of slot_testv_and_readv_and_writev. Every write request and its answer is taken from the wire log; the version (seqnum, root hash) carried by a write is parsed from its write vectors. Oracle: the publish Deferred called back => answers with wrote=True that reached the client cover >= k distinct share numbers of one version, no answer to a write of that version said wrote=False, no answer's read-back showed a share of another version on a share number this publish does not write to on that server; the acknowledged shares on disk carry that version; a fresh client reads exactly the new content from a MODE_CHECK servermap with all servers up and, with download_best_version, from the acknowledging servers alone. Fewer than k share numbers acknowledged and every request answered or failed => the publish must errback. Stale-servermap scenarios (another writer got in between completely or partially; a share unknown to the servermap appears on a server) produce wrote=False answers and surprising read-backs. Sampled, not exhaustive.",
+    "text": "Runs the real Publish (initial creation, overwrite, modify, upload with a servermap, version overwrite, in-place MDMF update; SDMF and MDMF; k<=N<=10; 1..12 servers; three transport profiles) while servers fail, disconnect, never answer, answer late, answer with an error after having written, are dead or are read-only/full, on chosen calls of slot_testv_and_readv_and_writev. Every write request and its answer is taken from the wire log; the version (seqnum, root hash) carried by a write is parsed from its write vectors. Oracle: the publish Deferred called back => answers with wrote=True that reached the client cover >= k distinct share numbers of one version, no answer to a write of that version said wrote=False, no answer's read-back showed a share of another version on a share number this publish does not write to on that server; the acknowledged shares on disk carry that version; a fresh client reads exactly the new content from a MODE_CHECK servermap with all servers up and, with download_best_version, from the acknowledging servers alone. Fewer than k share numbers acknowledged and every request answered or failed => the publish must errback. no answer showed that a share number this publish wrote held a version it neither expected to replace (its own test vectors) nor wrote. Stale-servermap scenarios (another writer got in between completely or partially; a share unknown to the servermap appears on a server; a lost share whose number turns up again, in another version, on the server the homeless share is placed on) produce wrote=False answers and surprising read-backs. Sampled, not exhaustive.",
     "note": "Acknowledgement = an answer (wrote=True, ...) delivered to the client before its Deferred fired. Servers that never answer make the publish wait forever; such cases are counted and not judged for 'must errback'. Read-only and full storage servers do not refuse mutable writes in this code base (observed, counted). Trusts the in-process Wire and the virtual reactor.",
 }
 LEVEL = "exploration"
@@ -50,6 +50,7 @@ def run(ck):
     ck.require_reach("publish-succeeded", "publish-succeeded-with-failed-servers", "success-with-exactly-k-acknowledged",
                      "errback-not-enough-servers", "errback-uncoordinated-write", "fewer-than-k-acknowledged",
                      "k-minus-1-acknowledged", "write-refused-on-wire", "surprise-share-read-back",
+                     "written-share-number-held-unexpected-version",
                      "publish-waits-for-silent-server", "server-error-on-write", "server-disconnect-on-write",
                      "late-answer", "error-after-write", "scenario-create", "scenario-update", "in-place-update",
                      "sdmf", "mdmf")
@@ -68,12 +69,15 @@ def gen_case(rng, tier):
         k = rng.choice([1, n, max(1, n - 1), min(n, 3)])
     nservers = rng.choice([1, 2, 3, n, n, n + 1, n + 2, 12, rng.randint(1, 12)])
     nservers = max(1, min(12, nservers))
-    scenario = rng.choice(["create"] * 4 + ["update"] * 6 + ["stale-map"] * 2 + ["unknown-share"] * 2)
+    scenario = rng.choice(["create"] * 4 + ["update"] * 6 + ["stale-map"] * 2 + ["unknown-share"] * 2 +
+                          ["homeless-collision"] * 2)
+    if scenario == "homeless-collision":
+        nservers = min(nservers, n)          # every server holds a share (needed to plant a foreign one on any of them)
     fmt = rng.choice(["SDMF", "MDMF"])
     op = "create"
     if scenario == "update":
         op = rng.choice(["overwrite", "overwrite", "modify", "upload", "v-overwrite", "update", "update"])
-    elif scenario in ("stale-map", "unknown-share"):
+    elif scenario in ("stale-map", "unknown-share", "homeless-collision"):
         op = "upload"
     big = tier != "quick" and rng.random() < .08
     size = rng.choice([1, 2, 55, 56, 100, 1000, 3000]) if not big else rng.choice([131072, 131073, 300000])
@@ -308,6 +312,8 @@ class Case(object):
             st, res = self.wait(d)
             self.judge(n0, st, res, new, cap, op, prev=data)
             return
+        if case["scenario"] == "homeless-collision":
+            return self.homeless_collision(c, node, cap, si, new)
         # stale servermap scenarios: the writer's view is older than the grid
         planted = None
         if case["scenario"] == "unknown-share":
@@ -355,6 +361,55 @@ class Case(object):
         st, res = self.wait(node.upload(MutableData(new), smap))
         self.judge(n0, st, res, new, cap, "upload-stale")
 
+    def homeless_collision(self, c, node, cap, si, new):
+        """A share is lost, the writer maps the grid (that share number is now homeless), then a share with that number -
+        of a version that is neither the one the writer replaces nor the one it writes - turns up on the very server the
+        writer is going to put the homeless share on.  Its 'this share must not exist yet' test vector has to be refused."""
+        from allmydata.mutable.publish import MutableData
+        from allmydata.mutable.common import MODE_WRITE
+        ck, g, rng = self.ck, self.g, self.rng
+        ck.hit("scenario-homeless-collision")
+        saved = {}
+        for (vs, shnum, path) in g.find_shares(si):
+            if vs.index not in saved:
+                with open(path, "rb") as f:
+                    saved[vs.index] = f.read()                      # a share file of version #1 made by that server
+        st, r = self.wait(node.overwrite(MutableData(rng.randbytes(44))))      # everything moves on to version #2
+        if st != "ok":
+            ck.observe("honest-overwrite-failed")
+            return
+        shares = g.find_shares(si)
+        copies = {}
+        for (vs, shnum, path) in shares:
+            copies[shnum] = copies.get(shnum, 0) + 1
+        single = [(vs, shnum, path) for (vs, shnum, path) in shares if copies[shnum] == 1]
+        if not single:
+            ck.skip("no-share-to-lose")
+            return
+        xvs, s, path = rng.choice(single)
+        os.remove(path)                                              # the lost share
+        st, smap = self.wait(node.get_servermap(MODE_WRITE))
+        if st != "ok":
+            ck.observe("honest-mapupdate-failed")
+            return
+        # where will the homeless share go?  (fewest shares, then permuted order - public broker API; a wrong guess only
+        # turns the case into an ordinary surprise-share case)
+        order = [srv.get_serverid() for srv in c.storage_broker.get_servers_for_psi(si)]
+        byid = dict((vs.serverid, vs) for vs in g.servers)
+        ranked = sorted(((len(byid[sid].shares_of(si)), pos, byid[sid]) for pos, sid in enumerate(order)), key=lambda t: t[:2])
+        yvs = ranked[0][2]
+        if yvs.index not in saved:
+            ck.skip("no-foreign-share-available-for-that-server")
+            return
+        d = yvs.sharedir(si)
+        os.makedirs(d, exist_ok=True)
+        with open(os.path.join(d, "%d" % s), "wb") as f:
+            f.write(saved[yvs.index])
+        self.faultdesc["homeless"] = dict(lost=(xvs.name, s), foreign_share_of_version_1_on=yvs.name)
+        n0 = len(g.calls)
+        st, res = self.wait(node.upload(MutableData(new), smap))
+        self.judge(n0, st, res, new, cap, "upload-homeless")
+
     # -- the oracle
     def judge(self, n0, st, res, content, cap, opname, prev=None):
         ck, g, case = self.ck, self.g, self.case
@@ -388,6 +443,7 @@ class Case(object):
                         expected_old.add(h[1:])
         acked, refused, surprises, pending, lied, errors, late = {}, [], [], [], 0, 0, 0
         old_surprises = []
+        collisions = []          # (server, shnum, seqnum found, wrote): own share number held a version nobody expected
         for r in recs:
             vs = byname[r["server"]]
             if r["n"] in vs.inflight:
@@ -415,6 +471,19 @@ class Case(object):
             else:
                 for sh in mine:
                     acked.setdefault(sh, []).append(r["server"])
+            for sh in mine:
+                # what sat on the share number this request writes (read vectors are evaluated before the write)
+                vecs = read_data.get(sh)
+                h = parse_header(vecs[0] if vecs else None)
+                if h is None or h[1:] == V[1:]:
+                    continue
+                expected = set()
+                for tv in r["args"][2][sh][0]:
+                    e = parse_header(tv[-1])
+                    if e is not None:
+                        expected.add(e[1:])
+                if h[1:] not in expected and h[1:] not in expected_old:
+                    collisions.append((r["server"], sh, h[1], bool(wrote)))
             for sh, vecs in read_data.items():
                 if sh in written_to[r["server"]]:
                     continue
@@ -436,6 +505,8 @@ class Case(object):
             ck.hit("write-refused-on-wire")
         if surprises:
             ck.hit("surprise-share-read-back")
+        if collisions:
+            ck.hit("written-share-number-held-unexpected-version")
         if old_surprises:
             ck.skip("unknown-share-of-the-replaced-version-read-back")
             if st == "ok":
@@ -447,10 +518,10 @@ class Case(object):
                     break
         nack = len(acked)
         summary = dict(status=st, op=opname, version=(V[1], V[2][:6]) if V else None, acknowledged=sorted(acked),
-                       refused=refused[:4], surprises=surprises[:4], never_answered=len(pending), errors=errors,
+                       refused=refused[:4], surprises=surprises[:4], collisions=collisions[:4], never_answered=len(pending), errors=errors,
                        error_after_write=lied, error=ferr(res) if st == "err" else None)
         w = self.desc(outcome=summary)
-        nontrivial = bool(errors or lied or refused or surprises or pending or late)
+        nontrivial = bool(errors or lied or refused or surprises or collisions or pending or late)
         if st == "ok":
             ck.hit("publish-succeeded")
             if errors or lied or pending:
@@ -472,7 +543,12 @@ class Case(object):
                 ck.violation("success-although-unexpected-version-was-read-back",
                              "%s called back although write answers revealed shares of another version on share numbers this "
                              "publish does not write: %s" % (opname, surprises[:3]), w)
-            if nack >= k and not refused and not surprises:
+            if collisions:
+                ck.violation("success-although-written-share-number-held-an-unexpected-version",
+                             "%s called back although the answers to its own writes show that the share numbers it wrote held a "
+                             "version it neither expected to replace nor wrote itself (server, shnum, seqnum found, "
+                             "wrote): %s" % (opname, collisions[:3]), w)
+            if nack >= k and not refused and not surprises and not collisions:
                 self.check_recoverable(V, acked, content, cap, opname, w, len(set(v[1] for v in vers)))
         elif st == "err":
             name = res.type.__name__
@@ -601,19 +677,22 @@ def ferr(res):
         return repr(res)[:240]
 
 
-# MUST_CATCH (selftest/breaks_c47.py; tools/selftest.py --prop C47).  Result of the last run (on top of the fix for the
-# genuine finding below): 7/7 caught.
+# MUST_CATCH (selftest/breaks_c47.py; tools/selftest.py --prop C47): 9/9 caught on the current tree.
 #   c47-wrote-false-ignored            success-although-a-write-was-refused, success-with-fewer-than-k-shares-acknowledged
 #   c47-done-without-k                 success-with-fewer-than-k-shares-acknowledged
 #   c47-k-minus-one-enough             success-with-fewer-than-k-shares-acknowledged
 #   c47-surprise-dropped               success-although-unexpected-version-was-read-back
 #   c47-error-counted-as-success       success-with-fewer-than-k-shares-acknowledged
-#   c47-surprised-flag-not-checked     all three success-* keys
+#   c47-surprised-flag-not-checked     all success-* keys
 #   c47-writers-counted-not-shnums     success-with-fewer-than-k-shares-acknowledged
-# Not a C47 break (documented in breaks_c47.py): SDMF writes without test vector (that is C12).
+#   c47-must-not-exist-vector-lost     success-although-written-share-number-held-an-unexpected-version (= seeded C47-5)
+#   c47-sdmf-no-test-vector            success-although-unexpected-version-was-read-back / -written-share-number-held-...
+# Seeded changes (tools/selftest.py --seeded --prop C47): C47-1..C47-6 all caught.  C47-5 (storage_client.py wire conversion
+# drops the length of the "share must not exist yet" test vector) needs the homeless-collision scenario: a share is lost,
+# the writer maps the grid, a share with that number in a third version turns up on the server the homeless share goes to;
+# the oracle compares what each write answer read back on the share numbers it wrote with the versions named by that
+# request's own test vectors.  All writes go through the real allmydata.storage_client._StorageServer adapter
+# (VIServer.get_storage_server), so the conversion under test is executed.
 #
-# GENUINE on the unchanged tree (key update-retried-after-uncoordinated-write-error-loses-the-written-data):
-# mutable/filenode.py MutableFileVersion._do_modify_update: the modifier reads the one-shot uploadable `data` on every
-# invocation; when modify() retries after an UncoordinatedWriteError the second invocation gets b"" and publishes
-# old[:offset] + old[offset+len:] - update() reports success, the new bytes are absent and len bytes are cut out.
-# fix: read `data` once before defining the modifier.
+# Repaired in /repo after this check reported it: 8204975 (SDMF update retried after an UncoordinatedWriteError dropped
+# the new data; key update-retried-after-uncoordinated-write-error-loses-the-written-data).
